@@ -731,6 +731,9 @@ func runC06(args []string) error {
 		if len(in.Ops) == 1 && in.Ops[0] == "rejected-after-exec" {
 			return c06RunH6(co, in)
 		}
+		if len(in.Ops) > 0 && strings.Count(in.Ops[0], "/") == 2 {
+			return c06RunStale(co, c06StaleIn{Cfg: in.Cfg, Blocks: in.Blocks, Ops: in.Ops})
+		}
 		return c06RunState(co, in)
 	}
 	if cf.replay != "" {
@@ -756,6 +759,14 @@ func runC06(args []string) error {
 		in := c06Gen(r, i)
 		if err := run(in); err != nil {
 			return fmt.Errorf("state %d: %w", i, err)
+		}
+		if i%2 == 0 {
+			// stale-pool family: pool at H, intervening block, offer at H+2
+			st := c06Input{Cfg: in.Cfg, Blocks: in.Blocks, Ops: c06StaleOps()}
+			st.Cfg.GC = false
+			if err := run(st); err != nil {
+				return fmt.Errorf("state %d: %w", i, err)
+			}
 		}
 		if in.Cfg.SRIH && len(in.Blocks) >= 3 {
 			// a block rejected AFTER it was executed (trie batch applied), previous block still in the write cache
